@@ -1,7 +1,9 @@
-(* C12 -- proofs about the membership model: caps, polygons, window lookup, balkans slicing. *)
+(* C12 -- proofs about the membership model: caps, polygons, window lookup, balkans slicing.
+   The algorithmic model M (C12/Model.v) is built from the expressions extracted from the source
+   (Generated/Mangle.v); every lemma that unfolds a gen_* definition holds or fails with the source. *)
 From Coq Require Import ZArith QArith Qabs List Bool Lia Lqa.
 Import ListNotations.
-From PV Require Import C12.Model.
+From PV Require Import C12.Spec Generated.Mangle C12.Model.
 Open Scope Z_scope.
 
 (* ------------------------------------------------------------------ caps *)
@@ -89,7 +91,7 @@ Qed.
 
 Lemma is_cap_used_testbit u i : is_cap_used u i = Z.testbit u (Z.of_nat i).
 Proof.
-  unfold is_cap_used. rewrite Z.shiftl_1_l.
+  unfold is_cap_used, gen_is_cap_used. rewrite Z.shiftl_1_l.
   set (k := Z.of_nat i). assert (0 <= k) as Hk by (subst k; lia).
   destruct (Z.testbit u k) eqn:T.
   - apply negb_true_iff. apply Z.eqb_neq. intro H.
@@ -133,15 +135,15 @@ Qed.
 (* in_polygon_spec: inside <-> inside every used cap among the first usencaps *)
 Lemma spec_in_polygon_spec P ncaps p :
   spec_in_polygon P ncaps p = true <->
-  (forall i c, (i < usencaps P ncaps)%nat -> nth_error (pcaps P) i = Some c ->
+  (forall i c, (i < spec_usencaps P ncaps)%nat -> nth_error (pcaps P) i = Some c ->
                Z.testbit (puse P) (Z.of_nat i) = true -> in_cap c p = true).
 Proof.
   unfold spec_in_polygon. rewrite all_used_from_spec. split.
   - intros H i c Hi Hn Hb. apply (H i c); [|exact Hb].
-    rewrite nth_error_firstn. destruct (Nat.ltb_spec i (usencaps P ncaps)); [exact Hn|lia].
+    rewrite nth_error_firstn. destruct (Nat.ltb_spec i (spec_usencaps P ncaps)); [exact Hn|lia].
   - intros H k c Hk Hb. cbn [Nat.add] in Hb.
     rewrite nth_error_firstn in Hk.
-    destruct (Nat.ltb_spec k (usencaps P ncaps)) as [L|L]; [|discriminate].
+    destruct (Nat.ltb_spec k (spec_usencaps P ncaps)) as [L|L]; [|discriminate].
     apply (H k c L Hk Hb).
 Qed.
 
@@ -149,7 +151,7 @@ Qed.
 Lemma in_polygon_loop use caps p : forall len i0 acc,
   (i0 + len <= length caps)%nat ->
   fold_left (fun acc i => if is_cap_used use i
-                          then match nth_error caps i with Some c => acc && in_cap c p | None => false end
+                          then match nth_error caps i with Some c => gen_poly_acc acc (in_cap c p) | None => false end
                           else acc) (seq i0 len) acc
   = acc && all_used_from i0 use (firstn len (skipn i0 caps)) p.
 Proof.
@@ -162,33 +164,39 @@ Proof.
       - cbn in E. injection E as ->. reflexivity.
       - cbn [nth_error] in E. cbn [skipn]. rewrite (IH caps E). reflexivity. }
     rewrite Sk. cbn [firstn all_used_from].
-    rewrite IH by lia. rewrite is_cap_used_testbit.
+    rewrite IH by lia. rewrite is_cap_used_testbit. unfold gen_poly_acc.
     destruct (Z.testbit use (Z.of_nat i0)); [rewrite andb_assoc|]; reflexivity.
 Qed.
 
-Lemma usencaps_le P ncaps : (usencaps P ncaps <= pn P)%nat.
-Proof. unfold usencaps. destruct (0 <? ncaps) eqn:E; lia. Qed.
+(* the generated restriction  usencaps = NCAPS; if ncaps > 0: usencaps = min(ncaps, NCAPS)  is the specified one *)
+Lemma usencaps_eq P ncaps : usencaps P ncaps = spec_usencaps P ncaps.
+Proof.
+  unfold usencaps, gen_usencaps, spec_usencaps. destruct (Z.ltb_spec 0 ncaps); lia.
+Qed.
+
+Lemma usencaps_le P ncaps : (spec_usencaps P ncaps <= pn P)%nat.
+Proof. unfold spec_usencaps. destruct (0 <? ncaps) eqn:E; lia. Qed.
 
 (* M refines S for every well-formed polygon (as many stored caps as NCAPS says) *)
 Lemma in_polygon_refines P ncaps p : (pn P <= length (pcaps P))%nat ->
   in_polygon P ncaps p = spec_in_polygon P ncaps p.
 Proof.
-  intro Hwf. unfold in_polygon, spec_in_polygon.
+  intro Hwf. unfold in_polygon, spec_in_polygon. rewrite usencaps_eq.
   pose proof (usencaps_le P ncaps).
   rewrite in_polygon_loop by lia. reflexivity.
 Qed.
 
 Lemma in_polygon_spec P ncaps p : (pn P <= length (pcaps P))%nat ->
   (in_polygon P ncaps p = true <->
-   (forall i c, (i < usencaps P ncaps)%nat -> nth_error (pcaps P) i = Some c ->
+   (forall i c, (i < spec_usencaps P ncaps)%nat -> nth_error (pcaps P) i = Some c ->
                 Z.testbit (puse P) (Z.of_nat i) = true -> in_cap c p = true)).
 Proof. intro H. rewrite (in_polygon_refines P ncaps p H). apply spec_in_polygon_spec. Qed.
 
 (* a polygon without caps, or with an empty use-mask, contains every point *)
 Lemma no_caps_contains_all P ncaps p : pn P = 0%nat -> in_polygon P ncaps p = true.
 Proof.
-  intro H. unfold in_polygon.
-  assert (usencaps P ncaps = 0%nat) as -> by (pose proof (usencaps_le P ncaps); lia).
+  intro H. unfold in_polygon. rewrite usencaps_eq.
+  assert (spec_usencaps P ncaps = 0%nat) as -> by (pose proof (usencaps_le P ncaps); lia).
   reflexivity.
 Qed.
 
@@ -199,11 +207,11 @@ Proof.
   pose proof (usencaps_le P ncaps). rewrite H in Hb by lia. discriminate.
 Qed.
 
-Lemma usencaps_pos P ncaps : 0 < ncaps -> usencaps P ncaps = Nat.min (Z.to_nat ncaps) (pn P).
-Proof. intro H. unfold usencaps. destruct (Z.ltb_spec 0 ncaps); lia. Qed.
+Lemma usencaps_pos P ncaps : 0 < ncaps -> spec_usencaps P ncaps = Nat.min (Z.to_nat ncaps) (pn P).
+Proof. intro H. unfold spec_usencaps. destruct (Z.ltb_spec 0 ncaps); lia. Qed.
 
-Lemma usencaps_zero P ncaps : ncaps <= 0 -> usencaps P ncaps = pn P.
-Proof. intro H. unfold usencaps. destruct (Z.ltb_spec 0 ncaps); lia. Qed.
+Lemma usencaps_zero P ncaps : ncaps <= 0 -> spec_usencaps P ncaps = pn P.
+Proof. intro H. unfold spec_usencaps. destruct (Z.ltb_spec 0 ncaps); lia. Qed.
 
 (* restricting to the first n caps ignores the rest: caps and mask bits at positions >= n are irrelevant *)
 Lemma first_n_caps_ignores_rest P P' n p :
@@ -241,6 +249,9 @@ Proof.
   - apply Z.ones_spec_low. lia.
   - apply Z.ones_spec_high. lia.
 Qed.
+
+Lemma gen_balkans_use_testbit n i : Z.testbit (gen_balkans_use (Z.of_nat n)) (Z.of_nat i) = (i <? n)%nat.
+Proof. unfold gen_balkans_use. apply all_caps_mask_testbit. Qed.
 
 (* ------------------------------------------------------------------ window lookup *)
 
@@ -324,7 +335,7 @@ Proof.
     cbn [combine map]. rewrite <- IHa by (cbn in Hlen; lia).
     destruct (a =? -1) eqn:E; [apply Z.eqb_eq in E; subst; reflexivity | reflexivity].
   - inversion Hwf as [|? ? HP HPs]; subst.
-    unfold window_step at 2.
+    unfold window_step at 2. unfold gen_window_next, gen_window_unassigned, gen_window_assign.
     replace (Z.of_nat k0 + 1) with (Z.of_nat (S k0)) by lia.
     rewrite IH; [|exact HPs|rewrite map_length, combine_length; lia].
     clear IH. revert pts Hlen. induction assigned as [|a assigned IHa]; intros [|p pts] Hlen; try discriminate; [reflexivity|].
@@ -333,7 +344,7 @@ Proof.
     destruct (a =? -1) eqn:E.
     + destruct (spec_in_polygon P ncaps p) eqn:I.
       * assert (Z.of_nat k0 =? -1 = false) as -> by (apply Z.eqb_neq; lia). reflexivity.
-      * reflexivity.
+      * rewrite E. reflexivity.
     + rewrite E. reflexivity.
 Qed.
 
@@ -341,12 +352,13 @@ Lemma in_window_refines Ps ncaps pts : Forall wf_poly Ps ->
   in_window Ps ncaps pts = spec_window Ps ncaps pts.
 Proof.
   intro Hwf. unfold in_window, in_window_idx, spec_window.
+  unfold gen_window_start, gen_window_default. change (0 - 1) with (-1).
   pose proof (window_loop ncaps pts Ps 0 (map (fun _ => -1) pts) Hwf (map_length _ _)) as W.
   cbn [Z.of_nat] in W. rewrite W. clear W.
   fold (first_match Ps ncaps).
   induction pts as [|p pts IH]; [reflexivity|].
   cbn [map combine]. rewrite IH. f_equal.
-  unfold first_match. rewrite Z.eqb_refl.
+  unfold first_match. rewrite Z.eqb_refl. unfold gen_window_flag.
   destruct (first_match_from 0 Ps ncaps p); cbn [idx_of]; [|reflexivity].
   assert (0 <=? Z.of_nat n = true) as -> by (apply Z.leb_le; lia). reflexivity.
 Qed.
@@ -406,6 +418,30 @@ Qed.
 Lemma slice_length {A} (l : list A) lo n : (lo + n <= length l)%nat -> length (slice lo n l) = n.
 Proof. intro H. unfold slice. rewrite firstn_length, skipn_length. lia. Qed.
 
+Lemma zip_caps_map l : zip_caps (map cx l) (map ccm l) = l.
+Proof. induction l as [|[x c] l IH]; [reflexivity|]. cbn [map zip_caps cx ccm]. rewrite IH. reflexivity. Qed.
+
+Lemma firstn_map' {A B} (f : A -> B) l : forall n, firstn n (map f l) = map f (firstn n l).
+Proof. induction l as [|a l IH]; intros [|n]; try reflexivity. cbn [map firstn]. rewrite IH. reflexivity. Qed.
+
+Lemma skipn_map' {A B} (f : A -> B) l : forall n, skipn n (map f l) = map f (skipn n l).
+Proof. induction l as [|a l IH]; intros [|n]; try reflexivity. cbn [map skipn]. apply IH. Qed.
+
+(* the generated source/destination bounds are ICAP : ICAP+NCAPS -> 0 : NCAPS for X and for CM alike:
+   the assembled polygon holds the slice of the cap table *)
+Lemma balkans_poly_caps bcaps icap n : pcaps (balkans_poly bcaps icap n) = slice icap n bcaps.
+Proof.
+  unfold balkans_poly. cbv zeta. cbn [pcaps].
+  unfold gen_x_dst_lo, gen_x_dst_hi, gen_cm_dst_lo, gen_cm_dst_hi, gen_x_src_lo, gen_x_src_hi, gen_cm_src_lo, gen_cm_src_hi.
+  rewrite !Z.eqb_refl. cbn [andb].
+  unfold pyslice, slice.
+  replace (Z.to_nat (Z.of_nat icap + Z.of_nat n - Z.of_nat icap)) with n by lia.
+  rewrite Nat2Z.id. rewrite !skipn_map', !firstn_map'. apply zip_caps_map.
+Qed.
+
+Lemma balkans_poly_use bcaps icap n : puse (balkans_poly bcaps icap n) = Z.shiftl 1 (Z.of_nat n) - 1.
+Proof. reflexivity. Qed.
+
 (* polygon k of the balkans holds exactly caps ICAP_k .. ICAP_k+NCAPS_k-1 in order, all of them in use *)
 Lemma balkans_slice_spec bcaps blist k icap n :
   nth_error blist k = Some (icap, n) ->
@@ -416,10 +452,10 @@ Lemma balkans_slice_spec bcaps blist k icap n :
     ((icap + n <= length bcaps)%nat -> length (pcaps P) = n).
 Proof.
   intro H. unfold balkans_slice. rewrite nth_error_map, H. cbn [option_map].
-  eexists. split; [reflexivity|]. cbn [pn pcaps puse]. split; [reflexivity|]. split; [|split].
-  - intros i Hi. apply slice_nth. exact Hi.
-  - intro i. apply all_caps_mask_testbit.
-  - apply slice_length.
+  eexists. split; [reflexivity|]. split; [reflexivity|]. split; [|split].
+  - intros i Hi. rewrite balkans_poly_caps. apply slice_nth. exact Hi.
+  - intro i. rewrite balkans_poly_use. apply all_caps_mask_testbit.
+  - rewrite balkans_poly_caps. apply slice_length.
 Qed.
 
 Lemma balkans_slice_length bcaps blist : length (balkans_slice bcaps blist) = length blist.
